@@ -301,7 +301,7 @@ impl Check for C15 {
         (v, info)
     }
     fn rule(&self) -> String {
-        "arrival histories of 5-29 sequential connections from peers 127.0.0.1/2/3; PROXY off / v1+v2 / v1 only / v2 only; per connection a valid v1 or v2 header announcing one of six IPv4/IPv6 sources (two share an IP), v2 LOCAL, v1 UNKNOWN, no header, or a malformed header; limiter limit 1-4 with a 1000 s window; every fifth connection performs a full login with routing (cookie issued). non-trivial = PROXY on, at least two distinct announced sources through at least two peers, and at least one refusal by the limiter; distinct = distinct case".into()
+        "arrival histories of 5-29 sequential connections from peers 127.0.0.1/2/3; PROXY off / v1+v2 / v1 only / v2 only; per connection a valid v1 or v2 header announcing one of six IPv4/IPv6 sources (two share an IP), v2 LOCAL, v1 UNKNOWN, no header, or a malformed header; limiter limit 1-4 with a 1000 s window; every fifth connection performs a full login with routing (cookie issued); in 30 % of the cases the listener is a passage child process that takes PROXY versions and limiter from its layered configuration (file / environment, decoys in the lower layer). non-trivial = PROXY on, at least two distinct announced sources through at least two peers, and at least one refusal by the limiter; distinct = distinct case".into()
     }
     fn assumptions(&self) -> Vec<String> {
         vec![
